@@ -6,7 +6,7 @@ import numpy as np
 RULE = (
     "full product: data = every tuple of length <= L over the 9-value alphabet V "
     "(f8) and over its integer/half-integer members (i8,i4,f4) x binning "
-    "{binsize .1,.3,.5,1,2.5 | nbin 1,2,3,5} x min {None,-1,.5,1} x max {None,1,2,3.7} "
+    "{binsize .1,.3,.5,1,2.5 | nbin 1,2,3,5} x min {None,-1,0,.5,1} x max {None,0,1,2,3.7} "
     "(max >= min) x entry {histogram, Binner.dohist}; each case runs BOTH engines "
     "(compiled, pure python) and compares them with each other and with the "
     "reference.  non-trivial = the data contain a tie, a value exactly on a bin "
@@ -23,8 +23,8 @@ VI = [0, 1, 2, -1, 3]
 VH = [0.0, 0.5, 1.0, 1.5, -1.0, 2.0]
 BINNING = [("binsize", 0.5), ("binsize", 1.0), ("binsize", 0.3), ("binsize", 2.5),
            ("binsize", 0.1), ("nbin", 1), ("nbin", 2), ("nbin", 3), ("nbin", 5)]
-MINS = [None, -1.0, 0.5, 1.0]
-MAXS = [None, 1.0, 2.0, 3.7]
+MINS = [None, -1.0, 0.0, 0.5, 1.0]
+MAXS = [None, 0.0, 1.0, 2.0, 3.7]
 
 
 def reference(data, bkind, bval, mn, mx):
